@@ -12,6 +12,8 @@ RULE = (
     "defaults, clamping values of bmin/Lmin) plus an exhaustive small-N grid; each plan is judged by a validity "
     "predicate per clause (>=1 segment, navg==K==len(D), 0<=D<=N-L, D[0]=0, strictly increasing, last segment ends "
     "at N, max(1,Lmin)<=L<=N, K==1 => L==N) and by building the same plan through SpectrumAnalyzer.plan() (no "
+    "exception, same D, K==navg==len(D); the analyzer is built with verbose on/off and with the scheduler named or passed as "
+    "the library's function object) (no "
     "exception, same D). Non-trivial: >=3 bins, >=2 distinct L and a bin with K>=2; classes degenerate "
     "((1-olap)*L<1 somewhere), Lmin-clamped, bmin-active, single-segment bins, N<64 are counted."
 )
